@@ -141,6 +141,14 @@ def hypergraph_static(level="full"):
     A("H.add_edges_from({'e': [1, 3]})")
     A("H.add_edges_from({5: [1, 2, 3], 1: [2]})")
     A("H.add_edges_from({0: {1, 2}, 'e': {2, 3}})")
+    # member collections of other types than list / set: frozenset, tuple, range, dict key view, numpy array
+    A("H.add_edge(frozenset({1, 2}))")
+    A("H.add_edge((3, 1), idx=5)")
+    A("H.add_edges_from({5: frozenset({1, 2}), 'e': frozenset({2, 3})})")
+    A("H.add_edges_from([frozenset({1, 2}), frozenset({3})])")
+    A("H.add_edges_from([(frozenset({2, 3}), 2)])")
+    A("H.add_edges_from({5: (1, 2, 3), 1: range(1, 3)})")
+    A("H.add_edges_from([range(1, 4), {1: 0, 3: 0}.keys()])")
     # caller-owned containers must be copied, not aliased (same object twice; object mutated by the caller later)
     A("aliased(lambda m: H.add_edges_from({'a': m, 'b': m}), {1, 2})")
     A("aliased(lambda m: H.add_edges_from({5: m}), {1, 2})")
@@ -249,6 +257,7 @@ def hypergraph_exotic():
     A("H.add_edge([FC], idx=3)")
     A("H.add_edge([TA, SB], idx=EF)")
     A("H.add_edge([SB], idx=EB)")
+    A("H.add_edges_from({6: np.array([1, 2]), 7: np.array(['b', 'c'])})")  # members from arrays: numpy scalars as labels
     # falsy labels and IDs: node 0 and '', edge IDs '' and () (anything testing truth instead of presence goes wrong)
     A("H.add_node(0)")
     A("H.add_node('')")
@@ -533,6 +542,11 @@ def dihypergraph_static():
     A("H.add_edges_from({0: ([1], [2]), 2: ([2, 3], [1])})")
     A("H.add_edges_from({'e': ([1, 3], [2])})")
     A("H.add_edges_from({5: ([1], [2, 3]), 1: ([2], [])})")
+    # tail / head collections of other types than list / set
+    A("H.add_edge((frozenset({1}), frozenset({2, 3})))")
+    A("H.add_edges_from({5: (frozenset({1, 2}), (3,)), 'e': ((2,), frozenset())})")
+    A("H.add_edges_from([(frozenset({1}), frozenset({2})), ((3,), range(1, 3))])")
+    A("H.add_edges_from([((frozenset({2}), frozenset({3, 1})), 2)])")
     A("aliased(lambda m: H.add_edges_from({5: (m, [2])}), {1})")
     A("aliased(lambda m: H.add_edges_from({'a': (m, [3]), 'b': ([3], m)}), {1, 2})")
     A("aliased(lambda m: H.add_edges_from([(m, {3})]), {1, 2})")
@@ -689,6 +703,10 @@ def simplicial_static():
     A("H.add_simplices_from([([1, 2, 3], 5), ([3, 4, 5], 2)])")
     A("H.add_simplices_from([([1, 2, 3], 4, {}), ([2, 3, 4], 'e', {'w': 1})])")
     A("H.add_simplex([3, 2, 1])")
+    # member collections of other types
+    A("H.add_simplex(frozenset({1, 2, 3}))")
+    A("H.add_simplices_from({5: frozenset({1, 2, 4}), 'e': (2, 3)})")
+    A("H.add_simplices_from([frozenset({1, 2}), range(2, 5)])")
     A("aliased(lambda m: H.add_simplices_from({'a': m, 'b': [2, 4]}), {1, 2, 4})")
     A("aliased(lambda m: H.add_simplices_from([m, [3, 4]]), [1, 2])")
     A("aliased(lambda m: H.add_simplex(m), {1, 2})")
